@@ -1163,6 +1163,12 @@ func (s *Store) streamBackupDB(ctx context.Context, name string, remotePos ltx.P
 	// If we haven't written anything yet then try to send data.
 	localPos := db.Pos()
 	if localPos.IsZero() {
+		// Nothing to send. If the backup service already has this database
+		// then it is ahead of the empty local copy.
+		if !remotePos.IsZero() {
+			slog.Warn("restoring from backup", slog.String("name", name), slog.String("reason", "local-empty"))
+			return ltx.Pos{}, ltx.NewPosMismatchError(remotePos)
+		}
 		return localPos, nil
 	}
 
